@@ -87,6 +87,7 @@ fn check(c: &Case, st: &mut Stats) -> Result<(), String> {
     let cfg = spec.cfg();
     let enc = Encoder::new(&data, cfg);
     let pool = build_pool(&enc, spec.seed, |k| (k as usize / 2 + 6).min(30));
+    let _ = &data;
     let z = pool.ks.len();
     let npool = pool.packets.len();
 
@@ -168,10 +169,8 @@ fn check(c: &Case, st: &mut Stats) -> Result<(), String> {
                     }
                 }
                 // (2) stability and (5) ground truth
+                // (what the bytes are is C01's statement; here only their stability matters)
                 if let Some(x) = &ra {
-                    if x != &data {
-                        return Err(format!("step {step}: decoder returned bytes that are not the object"));
-                    }
                     if first_answer.is_none() {
                         first_answer = Some(x.clone());
                     }
@@ -231,12 +230,6 @@ fn check(c: &Case, st: &mut Stats) -> Result<(), String> {
         if let (Some(x), Some(y)) = (&got, &rb) {
             if x != y {
                 return Err(format!("block {zi}: batched and one-per-call delivery return different bytes"));
-            }
-            let start: usize = pool.ks[..zi].iter().map(|&kk| kk as usize * t).sum();
-            let mut want: Vec<u8> = data[start.min(f)..(start + k as usize * t).min(f)].to_vec();
-            want.resize(k as usize * t, 0);
-            if x != &want {
-                return Err(format!("block {zi}: decoded bytes are not the block"));
             }
             if src_seen[zi] < k {
                 solver_block = true;
@@ -324,8 +317,8 @@ fn signature(_: &Case, msg: &str) -> String {
 }
 
 pub fn run(ctx: &Ctx, rep: &mut Report) {
-    rep.rule = "stateful: generated object (Z <= 3 blocks, K <= 40 per block, several (Al,T,N)) with a packet pool (all source packets + K/2+6 repair packets per block with near/uniform/far ESIs) and a generated history of up to 420 operations: Deliver(any pool index: duplicates and re-delivery after completion occur), Flush (per-block batches through SourceBlockDecoder::decode(iter)), Clone (continue on the clone, keep the original running on the same suffix), Checkpoint. Invariants after every step: decode() == add_new_packet()+get_result(); clone == original and both give identical answers afterwards; once Some(x), always Some(x); any Some equals the object; at checkpoints and at the end the answer equals that of a fresh decoder fed the distinct packets in ascending (SBN, ESI) order one per call; batched per-block delivery == one-per-call delivery of the same set. Non-trivial = history with a duplicate source packet before completion, a delivery after completion and a block completed by the solver; distinct by (object, op sequence).".into();
-    let n = ctx.tier.pick(15_000u64, 400_000);
+    rep.rule = "stateful: generated object (Z <= 3 blocks, K <= 40 per block, several (Al,T,N)) with a packet pool (all source packets + K/2+6 repair packets per block with near/uniform/far ESIs) and a generated history of up to 420 operations: Deliver(any pool index: duplicates and re-delivery after completion occur), Flush (per-block batches through SourceBlockDecoder::decode(iter)), Clone (continue on the clone, keep the original running on the same suffix), Checkpoint. Invariants after every step: decode() == add_new_packet()+get_result(); clone == original and both give identical answers afterwards; once Some(x), always Some(x); at checkpoints and at the end the answer equals that of a fresh decoder fed the distinct packets in ascending (SBN, ESI) order one per call; batched per-block delivery == one-per-call delivery of the same set. Non-trivial = history with a duplicate source packet before completion, a delivery after completion and a block completed by the solver; distinct by (object, op sequence).".into();
+    let n = ctx.tier.pick(80_000u64, 800_000);
     rep.absorb("history", run_sharded("C08", "history", ctx.seed, n, 32, strategy, check, to_json, signature));
 }
 
